@@ -31,6 +31,11 @@ def run_history(prop, seed, run, force=None, max_steps=None):
                 step = sched.resolve_macro(world, step)
                 if step is None:
                     continue
+            if any(k in step and step[k] not in world.slots for k in ("a", "b", "src")):
+                # a queued macro step whose operand was never born (the step that should have
+                # produced it was turned into an interrupted call): drop it
+                world.stats.inc("probe:macro_step_dropped")
+                continue
             world.execute(step)
             count += 1
             if count > nsteps + 8:
